@@ -59,11 +59,77 @@ CHECKS += [
      "note": SWEEP_NOTE + " Range clause: cases with sub-term values outside 1e+-60 are skipped for derivative / symbolic routes."},
 ]
 
+REWRITE_NOTE = ("Trusted base: reference semantics (smv/refsem.py) and rational-function normaliser (smv/ratfun.py), both "
+                "self-tested on every run; the reifier (isinstance + child fields). Transition function is the "
+                "implementation's own _take_reduction_step, driven from the harness; REDUCTION_STEPS_BOUND is patched at run time "
+                "for the give-up cuts. Bounds: start-term families of DESIGN.md 2.2.")
+HISTORY_NOTE = ("Trusted base: copy.deepcopy preserves sharing; the canonical state lists every field the library mutates "
+                "(_value, _is_fully_reduced, _evaluation_failed, stored symbolic partials). Complete for the pools, points and "
+                "menus explored; pools that hit the state cap are explored breadth-first and the completed depth is reported.")
+
+CHECKS += [
+    {"id": "C08", "engine": "REWRITE-MC",
+     "technique": "explicit-state exploration of the rewrite system with the real single-step function as transition relation; every edge judged by the reference semantics; fault enumeration of the step budget",
+     "design_ref": "DESIGN.md 3 C08",
+     "text": "From every start term (enumerated trees, skeletons, n-ary tuples, long chains, raw forward/reverse symbolic derivatives) the real _take_reduction_step trace is followed; each rewriting edge, the normal-form pass, the end-to-end result and the result under every step budget k = 0..steps must be defined wherever the input is and equal in value (grid + rational-function identity).",
+     "note": REWRITE_NOTE + F3_NOTE},
+    {"id": "C09", "engine": "HISTORY-MC",
+     "technique": "explicit-state breadth-first search over API-call histories on pools of live objects sharing sub-expressions, with exact state deduplication to a fixpoint",
+     "design_ref": "DESIGN.md 3 C09",
+     "text": "Pools of two expressions sharing one sub-expression object plus persistent early/late derivative objects are driven through every sequence of a 30-50 entry menu of public calls (including failing ones) until no new memo/flag state appears; on every transition the outcome must equal the outcome on a never-used pool.",
+     "note": HISTORY_NOTE + F3_NOTE},
+    {"id": "C10", "engine": "HISTORY-MC",
+     "technique": "same explicit-state search; a state invariant (objects equal, print, hash, reify and evaluate like fresh twins) is evaluated in every reached state",
+     "design_ref": "DESIGN.md 3 C10",
+     "text": "In every state reached by the history search, evaluated on a deep copy: each pooled expression, point and derivative object still equals, prints, hashes, reifies and evaluates like a freshly built twin, and every expression handed out by as_expression() still prints as it did. Pools use reducible shared shapes that symbolic derivatives embed by reference.",
+     "note": HISTORY_NOTE},
+    {"id": "C11", "engine": "REWRITE-MC",
+     "technique": "explicit-state exploration of rewrite traces with cycle detection on (term, flags) states, step-count and growth bounds, rule-freeness of normal forms",
+     "design_ref": "DESIGN.md 3 C11",
+     "text": "Along every trace: no (term, flags) state recurs, steps <= 2N^2+8, intermediates stay below 4N^2+16 nodes, the normal form is rule-free (a rebuilt copy reduces in zero rewriting steps), and for inputs of <= 20 nodes the library's own budgeted _fully_reduce finishes without the 'Unable to fully reduce' warning.",
+     "note": REWRITE_NOTE},
+    {"id": "C12", "engine": "PAIRS",
+     "technique": "exhaustive enumeration of all ordered pairs over a finite object set against model-key equality",
+     "design_ref": "DESIGN.md 3 C12",
+     "text": "All ordered pairs over ~1400 (quick) / several thousand (thorough) objects — every spelling of small terms, all single-edit neighbours of seed terms, points in every coordinate order, all derivative object kinds, foreign objects: == must coincide with equality of model keys (an equivalence, so reflexivity/symmetry/transitivity follow on the set), != its negation, no exception, equal => equal hash and set/dict membership.",
+     "note": "Trusted base: the model key (smv/model.py key()), restating the property's notion of structural equality."},
+    {"id": "C13", "engine": "PAIRS",
+     "technique": "exhaustive enumeration of printed forms: eval round-trip through the public namespace and injectivity by grouping",
+     "design_ref": "DESIGN.md 3 C13",
+     "text": "For every enumerated tree, spelling variant, point and derivative object: repr == str, eval(repr) in the public namespace reifies to the same model key and is == the object; all explored expressions grouped by printed text must have one model key per group.",
+     "note": "Trusted base: Python's eval over the public names; finite numeric content. F1 (NthRoot printed as NthPower) was repaired in /repo."},
+    {"id": "C15", "engine": "ARGS",
+     "technique": "exhaustive enumeration of operator applications over all ordered expression pairs and a finite exponent / foreign-operand menu",
+     "design_ref": "DESIGN.md 3 C15",
+     "text": "All ordered pairs of a set of small expressions under + - * / ** and unary minus must build exactly the named constructor over the operand objects, unsimplified and in order; every exponent and foreign operand of the menu is accepted/rejected as the reference predicate says.",
+     "note": "Trusted base: the accept/reject predicate in smv/args.py restating the documented ranges. bool exponents are not judged."},
+    {"id": "C16", "engine": "ARGS",
+     "technique": "exhaustive enumeration of constructor argument menus against an accept/reject reference predicate",
+     "design_ref": "DESIGN.md 3 C16",
+     "text": "Every constructor is called with every entry of the n, base, name and operand menus in every argument position and arity 0-4; acceptance must coincide with the documented ranges, accepted objects must report their parameters as given and evaluate like the reference model.",
+     "note": "Trusted base: reference predicates in smv/args.py and smv/coords.py. bool and non-finite parameters are not judged."},
+    {"id": "C18", "engine": "CONFIG",
+     "technique": "exhaustive enumeration of controlled set-iteration orders (owned nondeterminism) x coordinate/creation orders, plus a PYTHONHASHSEED window in fresh interpreters; per-item digests compared",
+     "design_ref": "DESIGN.md 3 C18",
+     "text": "A battery of multi-variable expressions is pushed through every route under all 24 controlled iteration orders of the variable-name sets, permuted coordinate and variable-creation orders, and 32 (quick) / 256 (thorough) hash seeds in separate processes; every configuration must give bit-identical numbers and identical expressions item by item.",
+     "note": "Trusted base: the harness wrapper around Expression.__init__ (verified on every run to steer numeric_partials_for). Hash seeds: a window, not all 2^32."},
+]
+
 DONE = {c["id"] for c in CHECKS}
 _PENDING = "check under construction in this session; not claimed until its machinery is committed"
 NOT_APPLICABLE = [{"property_id": f"C{n:02d}", "reason": _PENDING} for n in range(1, 19) if f"C{n:02d}" not in DONE]
 
 ENGINES = [
+    {"name": "REWRITE-MC", "path": "smv/rewrite_mc.py", "serves_properties": ["C08", "C11"],
+     "kind_free_text": "explicit-state exploration of the simplifier: transition = one call of the implementation's _take_reduction_step; edges judged by the reference semantics; budget cuts enumerated"},
+    {"name": "HISTORY-MC", "path": "smv/history_mc.py", "serves_properties": ["C09", "C10"],
+     "kind_free_text": "explicit-state BFS over API-call histories on pools of live objects sharing sub-expressions; exact canonical states; fixpoint or reported cap"},
+    {"name": "PAIRS", "path": "smv/pairs.py", "serves_properties": ["C12", "C13"],
+     "kind_free_text": "all ordered pairs / all printed forms over a finite object set against the model key"},
+    {"name": "ARGS", "path": "smv/args.py", "serves_properties": ["C15", "C16"],
+     "kind_free_text": "exhaustive finite menus of operator and constructor arguments against an accept/reject reference predicate"},
+    {"name": "CONFIG", "path": "smv/config.py", "serves_properties": ["C18"],
+     "kind_free_text": "enumeration of controlled iteration orders, coordinate/creation orders and hash seeds; digest comparison"},
     {"name": "SWEEP", "path": "smv/sweep.py, smv/deriv.py, smv/coords.py", "serves_properties": ["C01", "C02", "C03", "C04", "C05", "C06", "C07", "C14", "C17"],
      "kind_free_text": "bounded-exhaustive enumeration of expression trees x grid points x API routes on the real implementation, each execution compared with the reference semantics (smv/refsem.py)"},
 ]
